@@ -5,7 +5,7 @@ SPEC = {
     "tests": [
         {"name": "TestHTTPSamples", "quick": 320, "thorough": 24000, "shards_quick": 8, "shards_thorough": 16, "timeout": 3000},
         {"name": "TestGRPCCodes", "quick": 48, "thorough": 3200, "shards_quick": 4, "shards_thorough": 16, "timeout": 3000},
-        {"name": "TestGRPCJSONTags", "quick": 64, "thorough": 3200, "shards_quick": 4, "shards_thorough": 16, "timeout": 3000},
+        {"name": "TestGRPCJSONTags", "quick": 96, "thorough": 3200, "shards_quick": 4, "shards_thorough": 16, "timeout": 3000},
         {"name": "TestGRPCUntaggedWitness", "quick": 1, "thorough": 1, "shards": 1, "timeout": 120},
         {"name": "TestGRPCScenarioTags", "quick": 160, "thorough": 8000, "shards_quick": 4, "shards_thorough": 16, "timeout": 3000},
         {"name": "TestScenarioSamples", "quick": 400, "thorough": 24000, "shards_quick": 8, "shards_thorough": 16, "timeout": 3000},
@@ -52,12 +52,12 @@ SPEC = {
                "TestGRPCScenarioTags/call_shared_by_invoked_scenarios": 0.45, "TestGRPCScenarioTags/three_or_more_scenarios_invoked": 0.3,
                "TestGRPCScenarioTags/instances_ge_2_with_shared_call": 0.15, "TestGRPCScenarioTags/step_with_non_ok_status": 0.2,
                "TestGRPCScenarioTags/step_rejected_by_postprocessor": 0.15, "TestGRPCScenarioTags/invocation_cut_short_by_postprocessor": 0.12,
-               "TestGRPCScenarioTags/rejected_by_payload_assertion": 0.08, "TestGRPCScenarioTags/rejected_by_status_code_assertion": 0.065,
+               "TestGRPCScenarioTags/rejected_by_payload_assertion": 0.08, "TestGRPCScenarioTags/rejected_by_status_code_assertion": 0.06,
                "TestGRPCScenarioTags/rejected_step_answered_ok": 0.07, "TestGRPCScenarioTags/rejected_step_answered_non_ok": 0.07,
-               "TestGRPCScenarioTags/step_with_assertion_that_holds": 0.12, "TestGRPCScenarioTags/instances_ge_2_with_rejected_step": 0.035, "TestGRPCJSONTags/mixed_tags_beyond_read_ahead": 0.4, "TestGRPCJSONTags/mixed_tags_beyond_read_ahead_tag_key_absent": 0.38,
-               "TestGRPCJSONTags/mixed_tags_beyond_read_ahead_one_instance": 0.2, "TestGRPCJSONTags/mixed_tags_beyond_read_ahead_instances_ge_2": 0.15,
-               "TestGRPCJSONTags/mixed_tags_beyond_read_ahead_long_file": 0.17, "TestGRPCJSONTags/mixed_tags_beyond_read_ahead_by_passes": 0.19,
-               "TestGRPCJSONTags/within_read_ahead": 0.12,
+               "TestGRPCScenarioTags/step_with_assertion_that_holds": 0.09, "TestGRPCScenarioTags/instances_ge_2_with_rejected_step": 0.035, "TestGRPCJSONTags/mixed_tags_beyond_read_ahead": 0.3, "TestGRPCJSONTags/mixed_tags_beyond_read_ahead_tag_key_absent": 0.27,
+               "TestGRPCJSONTags/mixed_tags_beyond_read_ahead_one_instance": 0.12, "TestGRPCJSONTags/mixed_tags_beyond_read_ahead_instances_ge_2": 0.13,
+               "TestGRPCJSONTags/mixed_tags_beyond_read_ahead_long_file": 0.11, "TestGRPCJSONTags/mixed_tags_beyond_read_ahead_by_passes": 0.12,
+               "TestGRPCJSONTags/within_read_ahead": 0.1,
                "TestGRPCCodes/shared_client": 0.2, "TestGRPCCodes/out_of_range_codes": 0.2},
     "exhaustive_note": "gRPC status codes 0..16 are all exercised in every TestGRPCCodes case (the sub-space of defined codes is enumerated completely)",
     "manifest": {
